@@ -3,6 +3,12 @@ From Coq Require Import List ZArith Bool.
 Import ListNotations.
 From Verif.C09 Require Export Model.
 
+(* numerals of the generated case terms are read in the right scope without annotations *)
+Arguments VInt z%Z_scope.
+Arguments EConst z%Z_scope.
+Arguments EAwaitBad z%Z_scope.
+Arguments mkHand h_n%nat_scope h_base%Z_scope h_ret%Z_scope h_throw h_return h_next_bad.
+
 Fixpoint val_eqb (a b : val) : bool :=
   match a, b with
   | VUndef, VUndef => true
